@@ -76,13 +76,16 @@ func Reset(seed uint64) {
 }
 
 // SetStreamSeed reseeds one stream (used to run the same world under another
-// schedule). The recorded trace of that stream continues.
+// schedule). The recorded trace of that stream continues; in replay mode the
+// call does nothing.
 //
 //go:norace
 func SetStreamSeed(st int, seed uint64) {
 	s := &streams[st]
+	if s.replaying {
+		return // a replayed stream keeps supplying the recorded values
+	}
 	s.rng = mix(seed, uint64(st))
-	s.replaying = false
 }
 
 // SetReplay puts one stream into replay mode.
